@@ -32,6 +32,7 @@ func runC12(c *Ctx) {
 	c12R6(c, "C12.R6")
 	lockOrderRules(c, "C12.R7", "C12.R7s", func(cl string) bool { return strings.HasPrefix(cl, "multiplex.") })
 	condvarRules(c, "C12.R8")
+	nestedMonitorRules(c, "C12.R9", func(cl string) bool { return strings.HasPrefix(cl, "multiplex.") })
 	// imported: every stream close wakes its reader before anything that can fail ("every blocked read returns")
 	c.importing = "C03"
 	c03R2(c, "C03.R2")
